@@ -233,11 +233,11 @@ static var Thread_Init_Run(var self) {
   del_raw(t->args);
   t->args = NULL;
   
-  del_raw(exc);
-  
 #ifndef CELLO_NGC
   del_raw(gc);
 #endif
+  
+  del_raw(exc);
   
   return x;
 }
